@@ -145,7 +145,7 @@ func c01Pass(v *spec.V, c interface{}) (msg, stage string) {
 func runC01(c *ev.Ctx) {
 	defer sizeSweep(c, "C01")
 	o := docOptsFor(c)
-	c.Rule(docRule(o) + "Each document: build, String(), Parse*, kind-strict walk through the public API, Equals both ways, second generation. Non-trivial = distinct serialised text that contains an escape, a non-ASCII byte, a fraction/exponent number or nesting depth >= 2.")
+	c.Rule(docRule(o) + "Each document: build, String(), Parse*, kind-strict walk through the public API, Equals both ways, second generation; trees with nested containers: the same again after each nested container was edited through its own handle; the returned string must keep its bytes. Non-trivial = distinct serialised text that contains an escape, a non-ASCII byte, a fraction/exponent number or nesting depth >= 2.")
 	c.Assume("object key order in String() follows Go map iteration; oracles are order-insensitive", "invalid UTF-8 strings, NaN and infinities are outside the statement and not generated")
 	par.Stream(c.Workers, func() bool { return c.Expired() || c.TooMany() }, func(emit func(docCase) bool) { genDocs(o, emit) }, func(w int, d docCase) {
 		c.Eval(1)
@@ -223,7 +223,7 @@ func runC02(c *ev.Ctx) {
 	if !c.Thorough() {
 		o.StrLen = 2
 	}
-	c.Rule(docRule(o) + "Each document: String() must pass the harness's strict RFC 8259 recogniser and decode with encoding/json (UseNumber) to the specification tree (ints as integer literals via big.Int, floats via exact big.Rat rounding, strings bytewise). Non-trivial = distinct serialised text with an escape, non-ASCII byte, fraction/exponent number or nesting >= 2.")
+	c.Rule(docRule(o) + "Each document: String() must pass the harness's strict RFC 8259 recogniser and decode with encoding/json (UseNumber) to the specification tree (ints as integer literals via big.Int, floats via exact big.Rat rounding, strings bytewise); trees with nested containers: the same again after each nested container was edited through its own handle. Non-trivial = distinct serialised text with an escape, non-ASCII byte, fraction/exponent number or nesting >= 2.")
 	c.Assume("encoding/json and the harness recogniser are the independent standards-conforming readers", "the sign of a float zero is not compared (RFC 8259 leaves -0 to the reader)")
 	par.Stream(c.Workers, func() bool { return c.Expired() || c.TooMany() }, func(emit func(docCase) bool) { genDocs(o, emit) }, func(w int, d docCase) {
 		c.Eval(1)
@@ -476,7 +476,7 @@ func runC16(c *ev.Ctx) {
 	o.Floats, o.Ints = true, true
 	o.RuneContexts = false
 	runeIndents := []int{0, 2, 10}
-	c.Rule(docRule(o) + fmt.Sprintf("Each tree / float / int / multi-symbol-string document x every indent of %v; each per-code-point document x indents %v (valid) and {-1, 11} (must panic). FormatString must be non-empty, valid JSON, decode to the specification tree and to what String() denotes, and be reproduced byte for byte by the harness's canonical re-indenter. Non-trivial = distinct (output text) that spans more than one line or contains an escape/non-ASCII byte.", c16Indents, runeIndents))
+	c.Rule(docRule(o) + fmt.Sprintf("Each tree / float / int / multi-symbol-string document x every indent of %v; each per-code-point document x indents %v (valid) and {-1, 11} (must panic). FormatString must be non-empty, valid JSON, decode to the specification tree and to what String() denotes, and be reproduced byte for byte by the harness's canonical re-indenter; the returned string must keep its bytes across two later FormatString calls on other containers (indents 0, 2); trees with nested containers are re-formatted after an edit of each nested container through its own handle (indent 2). Non-trivial = distinct (output text) that spans more than one line or contains an escape/non-ASCII byte.", c16Indents, runeIndents))
 	c.Assume("canonical layout = one element per line, n spaces per level, '\"key\": value', empty containers inline, no trailing newline (what a standard JSON indenter produces)")
 	par.Stream(c.Workers, func() bool { return c.Expired() || c.TooMany() }, func(emit func(docCase) bool) { genDocs(o, emit) }, func(w int, d docCase) {
 		inds := c16Indents
